@@ -25,8 +25,8 @@ package ctlog
 //@   ensures [C03,C04] prefix: hasPrefix(ret, "staging/")
 //@   defines ret == stagingKey(tree)
 
-//@ func ctlog.compress props C03
-//@   defines ret1 == nil ==> ret0 == gzipOf(data)
+//@ func ctlog.compress props C03 C04
+//@   ensures [C03,C04] output-is-the-closed-gzip-stream-of-the-data: ret1 == nil ==> ret0 == gzipOf(data)
 
 //@ func ctlog.(*Log).edgeTilesHashReader props C01 C08
 //@   defines readerSeq(ret) == seqOfTree(l.tree.Tree)
@@ -357,6 +357,9 @@ package ctlog
 //@   requires l != nil && l.c != nil && !held(&l.rootsMu)
 //@   init gUp == emptyset("set[string]")
 //@   ensures [C09] roots-swapped-only-after-persisting: (l.roots != old(l.roots) || l.rootsPEM != old(l.rootsPEM)) ==> (ret == nil && gUp["_roots.pem"] && gUpData["_roots.pem"] == pemBytes && l.rootsPEM == pemBytes)
+//@   ensures [C09] success-records-the-new-pem: ret == nil ==> l.rootsPEM == pemBytes
+//@   ensures [C09] success-installs-pool-parsed-from-the-new-pem: (ret == nil && old(l.rootsPEM) != pemBytes) ==> (l.roots != nil && l.roots != old(l.roots) && l.roots.gparsed == pemBytes)
+//@   ensures [C09] success-persists-the-new-pem: (ret == nil && old(l.rootsPEM) != pemBytes) ==> (gUp["_roots.pem"] && gUpData["_roots.pem"] == pemBytes)
 //@   ensures [C09] failure-keeps-old-roots: ret != nil ==> l.roots == old(l.roots) && l.rootsPEM == old(l.rootsPEM)
 //@   ensures [C09] unlocked: !held(&l.rootsMu)
 
